@@ -81,6 +81,9 @@ func c08(c *Ctx) {
 	// at most one entry of the port table matches a connection: a definition that is compatible with an earlier one is
 	// not entered (shared with C19), otherwise the selector picks among overlapping entries by map order
 	c19Run(c)
+	// a datagram connection owns the bytes it was built from: the listeners do not hand out a view of a receive buffer they
+	// read the next datagram into (shared with C03/C04) – otherwise the selector peeks, and the service reads, another client's bytes
+	c04DatagramBuffers(c)
 }
 
 func c08Selector(c *Ctx, find, peek *ssa.Function, peekT *types.Named) {
